@@ -361,9 +361,11 @@ namespace bxdecay0 {
       for (auto & part : event_.grab_particles()) {
         // Fetch the current momentum:
         vector3 p_momentum = make_vector3(part.get_px(), part.get_py(), part.get_pz());
-        if (debug) std::cerr << "[debug] bxdecay0::momentum_direction_lock_event_op::_rotate_event_: Original momentum = ";
-        print(p_momentum, std::cerr);
-        std::cerr << std::endl;
+        if (debug) {
+          std::cerr << "[debug] bxdecay0::momentum_direction_lock_event_op::_rotate_event_: Original momentum = ";
+          print(p_momentum, std::cerr);
+          std::cerr << std::endl;
+        }
         // Rotate the momentum:
         vector3 new_p = rotate_zyz(p_momentum, 0.0, -ref_theta, -ref_phi);
         if (debug){
